@@ -27,7 +27,7 @@ type C12Case struct {
 	Pairs     [][2]int    `json:"pairs,omitempty"` // pairs of fault positions (selectors)
 }
 
-var c12Ops = []string{"insert", "insert", "update", "delete", "delete", "delete", "get", "iter", "seekiter", "diffiter", "difflinks", "clone", "min", "max", "ceil", "forward", "backward"}
+var c12Ops = []string{"insert", "insert", "update", "delete", "delete", "deletetop", "deletetop", "get", "iter", "seekiter", "diffiter", "difflinks", "clone", "min", "max", "ceil", "forward", "backward"}
 
 func genC12(t *rapid.T, tier string) C12Case {
 	c := C12Case{Cfg: core.GenConfig(t, tier, core.GenOpts{
@@ -37,9 +37,9 @@ func genC12(t *rapid.T, tier string) C12Case {
 	})}
 	pool := len(c.Cfg.Pool())
 	c.Base = append(core.GenFill(t, pool, pool), core.GenProgram(t, pairBaseWeights, 15, 1)...)
-	c.Residency = rapid.SampledFrom([]string{"memory", "reloaded", "reloaded", "reloaded+dirty", "reloaded+dirty"}).Draw(t, "residency")
+	c.Residency = rapid.SampledFrom([]string{"memory", "reloaded", "reloaded", "reloaded+dirty", "reloaded+dirty", "reloaded+dirty"}).Draw(t, "residency")
 	if c.Residency == "reloaded+dirty" {
-		c.Dirty = core.GenProgram(t, core.OpWeights{core.OpInsertNew: 3, core.OpDelete: 3, core.OpUpdate: 2}, 6, 1)
+		c.Dirty = core.GenProgram(t, core.OpWeights{core.OpInsertNew: 2, core.OpDelete: 2, core.OpUpdate: 6}, 12, 1)
 	}
 	c.Op = rapid.SampledFrom(c12Ops).Draw(t, "op")
 	c.K = rapid.IntRange(0, 63).Draw(t, "k")
@@ -74,6 +74,9 @@ type c12Env struct {
 	t, other          *core.Tree
 	load, cmp, marsh  *faultCounter
 	armed             bool
+	// cur is the cursor of a forward/backward case: positioned once without faults; the
+	// faulted step and its retry are the same call on this same cursor
+	cur *mast.Cursor
 }
 
 var errInjectedCmp = errors.New("injected key-compare fault")
@@ -158,10 +161,32 @@ func c12Build(c C12Case) (*c12Env, bool) {
 
 // c12Call runs the case's operation once. It returns the mast error, a
 // rendering of the call's result, and the expected model afterwards.
-func c12Call(c C12Case, e *c12Env) (opErr error, result string, post core.Model, skipped bool, panicked error) {
+func c12Call(c C12Case, e *c12Env, arm bool) (opErr error, result string, post core.Model, skipped bool, panicked error) {
 	w, t := e.w, e.t
 	post = t.Model.Clone()
 	pool := len(w.Pool)
+	e.armed = arm
+	defer func() { e.armed = false }()
+	step := func(f func(cur *mast.Cursor) error) (error, string) {
+		if e.cur == nil {
+			// position the cursor with faults off; only the step itself is subject to faults
+			e.armed = false
+			cur, err := t.M.Cursor(core.Ctx)
+			if err == nil {
+				err = cur.Ceil(core.Ctx, w.Pool[c.K%pool])
+			}
+			if err != nil {
+				return err, ""
+			}
+			e.cur = cur
+			e.armed = arm
+		}
+		if err := f(e.cur); err != nil {
+			return err, ""
+		}
+		k, v, ok := e.cur.Get()
+		return nil, fmt.Sprintf("%v=%v,%v", k, v, ok)
+	}
 	walk := func(start func(cur *mast.Cursor) error, step func(cur *mast.Cursor) error) (error, string) {
 		cur, err := t.M.Cursor(core.Ctx)
 		if err != nil {
@@ -196,8 +221,17 @@ func c12Call(c C12Case, e *c12Env) (opErr error, result string, post core.Model,
 			}
 			post[ki] = t.Model[ki] + 1
 			opErr = t.M.Insert(core.Ctx, w.Pool[ki], w.Cfg.MakeVal(post[ki]))
-		case "delete":
+		case "delete", "deletetop":
 			ki, ok := core.PresentKey(t.Model, c.K)
+			if ok && c.Op == "deletetop" {
+				// the present key of the highest layer: its removal merges the deepest pair of subtrees
+				best := -1
+				for _, k := range t.Model.Keys() {
+					if l := int(w.Cfg.RefLayer(w.Pool[k])); l > best {
+						best, ki = l, k
+					}
+				}
+			}
 			if !ok {
 				skipped = true
 				return nil
@@ -234,9 +268,9 @@ func c12Call(c C12Case, e *c12Env) (opErr error, result string, post core.Model,
 		case "ceil":
 			opErr, result = walk(func(cur *mast.Cursor) error { return cur.Ceil(core.Ctx, w.Pool[c.K%pool]) }, nil)
 		case "forward":
-			opErr, result = walk(func(cur *mast.Cursor) error { return cur.Ceil(core.Ctx, w.Pool[c.K%pool]) }, func(cur *mast.Cursor) error { return cur.Forward(core.Ctx) })
+			opErr, result = step(func(cur *mast.Cursor) error { return cur.Forward(core.Ctx) })
 		case "backward":
-			opErr, result = walk(func(cur *mast.Cursor) error { return cur.Ceil(core.Ctx, w.Pool[c.K%pool]) }, func(cur *mast.Cursor) error { return cur.Backward(core.Ctx) })
+			opErr, result = step(func(cur *mast.Cursor) error { return cur.Backward(core.Ctx) })
 		}
 		return nil
 	})
@@ -250,8 +284,8 @@ func runC12(c C12Case, o *run.Obs) error {
 		o.Label("aborted:base-failure")
 		return nil
 	}
-	e0.armed = true
-	opErr, normalResult, _, skipped, pan := c12Call(c, e0)
+	e0.load.failAt, e0.cmp.failAt, e0.marsh.failAt = nil, nil, nil
+	opErr, normalResult, _, skipped, pan := c12Call(c, e0, true)
 	if skipped {
 		o.Label("skipped:no-applicable-key")
 		return nil
@@ -306,9 +340,7 @@ func runC12(c C12Case, o *run.Obs) error {
 		pre := e.t.Model.Clone()
 		preHeight := e.t.M.Height()
 		desc := fmt.Sprintf("[%s] %s tree %s (height %d), %s(k=%d) with fault at %s call(s) %v of %d", c.Cfg, c.Residency, e.w.DescribeModel(pre), preHeight, c.Op, c.K, pl.class, pl.pos, counts[pl.class])
-		e.armed = true
-		opErr, _, post, _, pan := c12Call(c, e)
-		e.armed = false
+		opErr, _, post, _, pan := c12Call(c, e, true)
 		if pan != nil {
 			// a panic is neither a returned error nor a success: outside the statement, recorded only
 			panics++
@@ -324,7 +356,7 @@ func runC12(c C12Case, o *run.Obs) error {
 			continue
 		}
 		errored++
-		mutating := c.Op == "insert" || c.Op == "update" || c.Op == "delete"
+		mutating := c.Op == "insert" || c.Op == "update" || c.Op == "delete" || c.Op == "deletetop"
 		if mutating && pl.pos[0] >= 2 && c.Residency == "reloaded+dirty" {
 			late++
 		}
@@ -334,7 +366,7 @@ func runC12(c C12Case, o *run.Obs) error {
 			if o.Excl("insert-grow-failure-not-atomic") {
 				continue
 			}
-		} else if c.Op == "delete" && strings.HasPrefix(msg, "shrink:") {
+		} else if (c.Op == "delete" || c.Op == "deletetop") && strings.HasPrefix(msg, "shrink:") {
 			if o.Excl("delete-shrink-failure-not-atomic") {
 				continue
 			}
@@ -350,7 +382,7 @@ func runC12(c C12Case, o *run.Obs) error {
 			return fmt.Errorf("%s: the call returned error %q but the contents changed: %w", desc, opErr, err)
 		}
 		// the same call succeeds with the normal result when retried
-		rErr, rResult, _, _, rPan := c12Call(c, e)
+		rErr, rResult, _, _, rPan := c12Call(c, e, false)
 		if rPan != nil {
 			return fmt.Errorf("%s: the call returned error %q; retried after the fault cleared it panicked: %w", desc, opErr, rPan)
 		}
